@@ -210,6 +210,25 @@ namespace xv
             for (auto& x : e)
                 x &= M;
             out.push_back(mk("Ls x exponents", { V, Alpha::of(e).odd() }, 1));
+            // results in the subnormal range: ordinary mantissas (seeded) in the lowest binades x the exponents that
+            // push them below the normal range - where a result rounded more than once differs from the exact scaling
+            {
+                const int mant = t == XV_F32 ? 23 : 52;
+                std::vector<uint64_t> xs, es;
+                uint64_t sd = T.seed * 0x51ed27 + (uint64_t)t;
+                const int NX = T.thorough ? 16384 : 2048;
+                for (int i = 0; i < NX; ++i)
+                {
+                    uint64_t r = splitmix64(sd);
+                    uint64_t m = r & ((1ull << mant) - 1);
+                    uint64_t ex = 1 + (r >> 53) % 40; // biased exponent 1..40
+                    uint64_t sg = (r >> 63) << (t == XV_F32 ? 31 : 63);
+                    xs.push_back(sg | (ex << mant) | m);
+                }
+                for (int k = 1; k <= (t == XV_F32 ? 64 : 96); ++k)
+                    es.push_back((uint64_t)(int64_t)-k & M);
+                out.push_back(mk("seeded mantissas in the lowest binades x subnormal-making exponents", { Alpha::of(xs), Alpha::of(es).odd() }, 1));
+            }
         }
         else if (key == "conv")
         {
